@@ -350,3 +350,73 @@ PLANS['C13'] = {
     'note': 'trusted: supervisor/worker protocol, counting allocator, mutation engine; the XML nesting-depth stack overflow is a listed known finding',
     'technique': 'fault injection and mutation under outcome/allocation/progress monitors in a supervised worker process',
 }
+
+
+PLANS['C08'] = {
+    'level': 'exploration',
+    'rule': ('groups of 2-5 instances of one class (Part, MeshPart, TextLabel, ScreenGui, ImageLabel, StringValue, SpawnLocation, an unknown class) each carrying a random subset of logical properties under a '
+             'random spelling (canonical / alias / legacy migrating: Size|size, Color|Color3uint8|BrickColor|brickColor, Font|FontFace, IgnoreGuiInset|ScreenInsets, Image|ImageContent, MeshId|MeshContent ...); '
+             'every instance is first round-tripped alone, then the group in ALL n! sibling orders (n<=4; 24 random orders above): every order must serialize, every instance must show exactly what it shows alone, '
+             'gaps must hold the database default of the class (independent walk) or, if there is none, never a donor value; outcome classes must not depend on order; '
+             'non-trivial = group using >=2 distinct spellings; distinct = digest of the group description'),
+    'floor': {'quick': 2000, 'thorough': 100000},
+    'exhaustive': {},
+    'assumptions': ['differential oracle: alone vs in-group (so a defect that changes both identically is C01/C15 territory)', 'database defaults via dbwalk.rs'],
+    'run': _rt('c08', 4000, 300000),
+    'claim': 'held on N groups x all sibling orders: success independent of order, own values kept, gaps filled with defaults and never with another instance\'s value',
+    'note': 'trusted: harness generator of groups, differential oracle, dbwalk defaults',
+    'technique': 'differential runtime oracle (alone vs group, all permutations) over generated same-class groups',
+}
+
+
+def _c07(m, tier, seed, rundir, extra):
+    count = int(extra.get('count', 1600 if tier == 'quick' else 40000))
+    procs = 4 if tier == 'quick' else 12
+    tables = []
+    for p in range(procs):
+        res = core.run_sharded('c07', ['--seed', seed, '--count', count], SH, os.path.join(rundir, f'proc{p}'))
+        per_shard = []
+        for rc, summ, err in res:
+            if summ is None:
+                m.inconclusive.append(f'c07 process set {p} exited {rc}: {err[-300:]}')
+                per_shard.append({})
+            else:
+                per_shard.append(summ.get('extra', {}).get('hashes', {}))
+                summ['extra'] = {}
+                if p > 0:
+                    # the in-process checks of the repeated runs are the same executions again; keep their violations, not their counts
+                    summ['samples'] = []
+                m.add_summary(summ)
+        tables.append(per_shard)
+    compared = 0
+    differing = 0
+    for shard in range(SH):
+        base = tables[0][shard]
+        for key, h in base.items():
+            vals = {t[shard].get(key) for t in tables}
+            compared += 1
+            if len(vals) > 1:
+                differing += 1
+                idx, fmt = key.split('/')
+                kind = 'success-differs' if any(v and v.startswith('err') for v in vals) and any(v and v.startswith('ok') for v in vals) else 'bytes-differ'
+                m.add_violation(f'C07:cross-process:{kind}:{"xml" if fmt == "xml" else "binary"}',
+                                f'case {idx} ({fmt}): {len(vals)} different outputs across {procs} processes with the same seed: {sorted(str(v) for v in vals)[:4]}',
+                                {'cmd': 'c07', 'seed': seed, 'index': int(idx)}, None)
+    m.coverage['cross_process.outputs_compared'] = compared
+    m.coverage['cross_process.processes'] = procs
+    m.coverage['cross_process.outputs_differing'] = differing
+
+
+PLANS['C07'] = {
+    'level': 'exploration',
+    'rule': ('each logical tree (generated, plus instances carrying several spellings of one logical property with different values) is built 6 ways (nested builders, chosen referents, shuffled '
+             'property insertion order, reversed order + capacity, incremental inserts, flat insert + transfer_within) and serialized as binary x {lz4,none,zstd} and XML: all outputs byte-identical; '
+             'the whole workload runs in P separate processes (other hash seeds) and their (case, format) -> output hashes are joined offline and must agree; '
+             'fixed point: b2 = save(load(b1)), b3 = save(load(b2)) must be byte-identical; non-trivial = tree with >=3 nodes or >=2 properties; distinct = digest of the tree shape'),
+    'floor': {'quick': 1500, 'thorough': 30000},
+    'assumptions': ['process-level hash-seed diversity comes from ahash runtime keys: P processes sample P seeds, not all'],
+    'run': _c07,
+    'claim': 'held on N trees x 6 constructions x 4 encodings and across P processes: identical bytes; re-save is a fixed point',
+    'note': 'trusted: TreeSpec builders (spec.rs); hash-order dependence can only be observed across processes, so P bounds what is seen',
+    'technique': 'offline join of recorded output hashes across constructions and processes + in-process fixed-point monitor',
+}
